@@ -4,11 +4,11 @@ CONSTANTS
   NW = 2
   NT = 3
   NG = 2
-  KCodes = {0, 1030002, 2000100, 1010303, 15150101, 15000015}
+  KCodes = {0, 1030002, 2000100, 15150101, 15000015}
   WIds = {3, 4}
   LMode = "ones"
   ECodes = {0, 100}
-  TCodes = {11,12,31,22}
+  TCodes = {11,12,31}
   QuadIds = {2, 4}
   KVariant = "code"
   ClampE = 15
